@@ -3,5 +3,6 @@ CONSTANTS
   NW = 3
   K = 1
   PerThread = FALSE
+  Shape = "seedDraw"
 INVARIANT StreamIsolation
 CHECK_DEADLOCK FALSE
